@@ -135,6 +135,7 @@ def real_syms(e):
 def real_relevant(hyps, goal, rounds=8):
     """keep hypotheses connected to the goal through Real/Bool symbols (integer index symbols do not connect)"""
     syms = real_syms(goal)
+    if not syms: return list(hyps)        # goal `false` (unreachability): every hypothesis matters
     hs = [(h, real_syms(h)) for h in hyps]
     keep = [False] * len(hs)
     for _ in range(rounds):
